@@ -133,6 +133,28 @@ def run_driver(drv, args, timeout=1800):
     return p.stdout, round(time.time() - t0, 2)
 
 
+def run_hs_batch(drv, cases, scratch, tag, workers=32):
+    """Replay handshake cases with the hs-server driver command in isolated
+    child processes (one case at a time per child): a panic on a library
+    goroutine takes the child down and is charged to the case it was
+    replaying, which gets a synthetic history with a `panic` event.
+    Returns (trace_path, summary)."""
+    t0 = time.time()
+    cp = os.path.join(scratch, tag + "_cases.ndjson")
+    with open(cp, "w") as f:
+        for c in cases:
+            f.write(json.dumps(c) + "\n")
+    tp = os.path.join(scratch, tag + "_trace.ndjson")
+    rp = os.path.join(scratch, tag + "_res.json")
+    run_driver(drv, ["hs-server", "-isolate", "-cases", cp, "-trace", tp, "-results", rp,
+                     "-workers", str(workers)])
+    with open(rp) as f:
+        summ = json.load(f)
+    summ["mismatches"] = summ.get("mismatches") or []
+    summ["wall_s"] = round(time.time() - t0, 2)
+    return tp, summ
+
+
 def split_trace(trace_path, scratch, shards, is_start):
     """Split an ndjson trace at case boundaries into at most `shards` files."""
     with open(trace_path) as f:
